@@ -320,6 +320,8 @@ also('C20', 'an eigenvector taken from eigh / eigsh is a column `[:, k]`, never 
 
 # ---- clauses added with the round-4 rules (DESIGN.md 4, "Round-4 batch")
 also('C01', 'arrays with an open batch shape are reduced along negative axes (AX1); a hand-written softmax shifts by the per-sample maximum (SM1); no literal sin(r)/r (SINC1).')
+also('C02', 'no forward map divides a parameter-derived value by its own modulus (W8: no gauge fixing that removes a phase coordinate); a generator that is complex on some path is '
+            'never symmetrised with its bare transpose (HM1: the Hermitian part of an SU(d) generator is kept); a complex-capable array is never cast to a real dtype (DT7).')
 also('C03', 'the sweep over the gate list dispatches every gate - no continue / break (D6, 7 sweeps); the apply_* primitives never re-normalise by a data-dependent trace / norm '
             '(NR1); no angle is reduced modulo a multiple of pi in numqi.sim / numqi.gate (PG1).')
 also('C04', 'forward / backward of every autograd Function store only into ctx and local objects (A10, 10 methods); no *_grad primitive branches on the numeric content of the '
